@@ -11,7 +11,7 @@ META = dict(
               "success, TRANSIENT exception/result, AbortRetryError, CancelledError, KeyboardInterrupt, SystemExit; every "
               "abort_if answer a solver boolean; the sleeper raises a cancellation-type exception at a solver-chosen "
               "sleep; async: CancelledError thrown into the coroutine at a solver-chosen suspension point "
-              "(before/after each operation body, inside each sleep)",
+              "(before/after each operation body, inside each awaitable before_sleep hook, inside each sleep)",
         thorough="N=4",
     ),
     assumptions=["frozen clock, zero strategy, max_attempts = N+1 (caps are C01's subject)",
@@ -52,10 +52,14 @@ def check_abort(w, trace, result, sym, inj):
     # 1. polls are placed before every attempt and before every sleep
     need_poll = True  # at begin
     polled = False
+    decided_since_poll = False  # classification / strategy / budget work happened after the last poll
     for ev in trace:
         k = ev[0]
         if k == "poll":
             polled = True
+            decided_since_poll = False
+        elif k in ("strategy", "consume"):
+            decided_since_poll = True
         elif k == "op":
             if not polled:
                 return ("no_poll_before_attempt", f"attempt {ev[1]} started without consulting abort_if since the previous action")
@@ -67,6 +71,9 @@ def check_abort(w, trace, result, sym, inj):
         elif k == "sleep":
             if not polled:
                 return ("no_poll_before_sleep", "backoff sleep started without consulting abort_if after the failure")
+            if decided_since_poll:
+                return ("stale_poll_before_sleep", "the retry decision (strategy / budget) was taken after the last abort_if poll and "
+                                                   "the backoff sleep started without consulting abort_if again")
             polled = False
             sym.cover("poll_before_sleep")
     # 2. nothing after the stop signal
@@ -146,6 +153,7 @@ def jobs(tier):
         for o1 in range(len(kinds)):
             out.append(dict(name=f"run:{entry}:o1={kinds[o1]}", harness="rv.props.c13:h_run",
                             params=dict(entry=entry, N=N, kinds=kinds, classes=["TRANSIENT"], max_attempts=N + 1,
-                                        abort=True, hooks=False, pin={"o1": o1}, maxk=3 * N + 2),
+                                        abort=True, hooks=False, pin={"o1": o1}, maxk=4 * N + 2,
+                                        before_sleep=entry.startswith("a"), async_before_sleep=True),
                             max_wall_s=600 if q else 3000, weight=3 if o1 in (1, 2) else 1))
     return out
